@@ -44,7 +44,22 @@ REQUIREMENTS = {
 }
 
 TAGSETS = [b"latest", b"next", b"latest,next", b"beta", b"next,latest", b"notlatest", b"", b"lat,est", b"beta,canary",
-            b"latest-2,latest", b"notlatest,stable,latest", b"latest,latest-2", b"xlatest,next,latest", b"latestx,latest"]
+            b"latest-2,latest", b"notlatest,stable,latest", b"latest,latest-2", b"xlatest,next,latest", b"latestx,latest",
+            # tags that also read as npm ranges
+            b"2", b"1.x,latest", b"2,next", b"*", b"^1.0.0"]
+
+
+def rand_version(rng, s, safe=False):
+    """a version string of system s; safe: no two different results compare equal (three numeric
+    components, no neutral qualifier)"""
+    core = "%d.%d.%d" % (rng.choice([0, 1, 1, 2, 3, 10]), rng.randrange(0, 4), rng.randrange(1 if safe else 0, 12))
+    if s == NPM:
+        suf = rng.choice(["", "", "", "-alpha", "-beta.%d" % rng.randrange(3), "-rc.1", "+b%d" % rng.randrange(3), "-0"])
+    elif s == MAVEN:
+        suf = rng.choice(["", "", "", "-alpha", "-beta-%d" % rng.randrange(1, 3), "-SNAPSHOT", "-rc1"] + ([] if safe else [".Final"]))
+    else:
+        suf = rng.choice(["", "", "", "a1", "b%d" % rng.randrange(3), "rc1", ".dev0", ".post%d" % rng.randrange(3)])
+    return (core + suf).encode()
 
 
 def attrs_dump(pairs):
@@ -133,26 +148,31 @@ def gen_cmp(tab, s, a, b):
 
 
 def laws_hold(cmp, items):
-    """sign-antisymmetry and transitivity of <= on the given items (the hypothesis of the
-    theorems on the semver layer, checked on Go's actual answers)."""
+    """Is cmp a lawful three-way comparison on the items (reflexive, sign-antisymmetric, transitive,
+    congruent: the hypothesis of the theorems on the semver layer, checked on Go's actual answers)?
+    A comparison is lawful exactly when it is the comparison of a rank function; the rank of an
+    item is the number of items strictly below it."""
     n = len(items)
     m = [[cmp(a, b) for b in items] for a in items]
+    rank = [sum(1 for j in range(n) if m[j][i] < 0) for i in range(n)]
     for i in range(n):
-        if m[i][i] != 0:
-            return False
+        mi = m[i]
+        ri = rank[i]
         for j in range(n):
-            if (m[i][j] > 0) != (m[j][i] < 0) or (m[i][j] == 0) != (m[j][i] == 0):
+            c = mi[j]
+            d = ri - rank[j]
+            if (c < 0) != (d < 0) or (c > 0) != (d > 0):
                 return False
-    for i in range(n):
-        for j in range(n):
-            if m[i][j] > 0:
-                continue
-            for k in range(n):
-                if m[j][k] <= 0 and m[i][k] > 0:
-                    return False
-                if m[i][j] == 0 and ((m[i][k] > 0) - (m[i][k] < 0)) != ((m[j][k] > 0) - (m[j][k] < 0)):
-                    return False
     return True
+
+
+def table_lawful(tab, s, strs):
+    """the comparator SortVersions uses for system s is lawful on these strings"""
+    strs = sorted(set(strs))
+    if s == NPM:
+        return laws_hold(lambda a, b: npm_cmp(tab, a, b), strs)
+    ps = [v for v in strs if tab.parses(s, v)]
+    return laws_hold(lambda a, b: tab.cmp(s, a, b), ps)
 
 
 def tags_of(rec):
@@ -212,6 +232,14 @@ def expected_matches(tab, s, req, ordered):
     return ms
 
 
+def sort_deps_like_go(deps):
+    """what SortDependencies leaves in the slice (stable, as Go's sort is up to 12 elements): npm
+    resolution order when the first element is an npm requirement, untouched otherwise"""
+    if not deps or deps[0][0] != NPM:
+        return list(deps)
+    return sorted(deps, key=functools.cmp_to_key(lambda a, b: -1 if dep_less(a, b) else (1 if dep_less(b, a) else 0)))
+
+
 def dep_less(a, b):
     """sortNPMDependencies closure; a, b = [sys, name, vtype, req, typedump]"""
     dev = [[D_DEV, b""]]
@@ -236,6 +264,9 @@ PROBE_RESORT = [[0, NPM, b"a", CONCRETE, b"1.0.0", [[V_TAGS, b"latest"]], []],
                 [0, NPM, b"a", CONCRETE, b"2.0.0", [], []],
                 [0, NPM, b"a", CONCRETE, b"1.0.0", [], []],
                 [2, NPM, b"a"]]
+_D = lambda n: [NPM, n, REQUIREMENT, b"*", []]
+PROBE_ALIAS = [[5, 0, NPM, b"a", CONCRETE, b"1.0.0", [], 2, b"2.0.0", [], 3, [_D(b"m"), _D(b"z"), _D(b"b")]],
+               [3, NPM, b"a", CONCRETE, b"1.0.0"], [3, NPM, b"a", CONCRETE, b"2.0.0"]]
 VARIANT_NAMES = (["AddVersion stores the old value back on a repeated key (F-C14-1)",
                   "AddVersion assigns the new value, no re-sort", "AddVersion assigns the new value and re-sorts"],
                  ["latest found by substring (F-C12-2)", "latest found among the comma separated tags"],
@@ -258,10 +289,21 @@ def detect_variant(ctx):
     w_tie = [[], PYPI, [[b"1.0", CONCRETE, []], [b"1.0.0", CONCRETE, []]], [1, 0]]
     s1, s2 = ctx.impl("sortv", [sx(w_latest), sx(w_tie)])
     m1, = ctx.impl("matchreq", [sx([[], MAVEN, b"[0.5,)", [[b"1.0", CONCRETE, []], [b"0.9", CONCRETE, []]], [0, 1]])])
+    m1 = sx(parse_sx(m1)[0])
     latest_exact = int([r[0] for r in parse_sx(s1)] == [b"2.0.0", b"1.0.0"])
     tie_break = int([r[0] for r in parse_sx(s2)] == [b"1.0", b"1.0.0"])
     match_sorts = int([r[0] for r in parse_sx(m1)] == [b"0.9", b"1.0"])
+    # F-C14-2: does the client keep the caller's requirement slice itself (bit 0), does AddVersion sort the
+    # caller's slice in place (bit 1)?
+    a1, = ctx.impl("client_history", [sx([0, [], PROBE_ALIAS])])
+    ra = parse_sx(a1)
+    given = [[NPM, b"m", REQUIREMENT, b"*", []], [NPM, b"z", REQUIREMENT, b"*", []], [NPM, b"b", REQUIREMENT, b"*", []]]
+    alias = int(len(ra) == 3 and ra[1] != [b"ok", given[:2]])
+    inplace = int(len(ra) == 3 and ra[0] != [b"ok", given])
+    ctx.extra["alias"] = alias + 2 * inplace
     v = [add, [latest_exact, match_sorts, tie_break]]
+    ctx.notes.append("AddVersion %s the caller's requirement slice%s" % ("keeps (F-C14-2)" if alias else "copies",
+                                                                         " and sorts it in place" if inplace else ""))
     ctx.notes.append("variant of the tree detected by witness replay: " + "; ".join(
         [VARIANT_NAMES[0][add], VARIANT_NAMES[1][latest_exact], VARIANT_NAMES[2][match_sorts], VARIANT_NAMES[3][tie_break]]))
     ctx.extra["variant"] = v
